@@ -5,6 +5,7 @@
  * iv_avl_tree_min/next and max/prev traverse exactly the in-order sequence.
  */
 #include <stdio.h>
+#include <sys/time.h>
 #include <unistd.h>
 #include <stdlib.h>
 #include <string.h>
@@ -81,13 +82,22 @@ static struct iv_avl_node *parse(struct iv_avl_node *parent)
 	return &nn->an;
 }
 
+static void verif_watchdog(int cpu_s, int wall_s)
+{
+	/* a library call that spins is cut by the CPU-time limit (independent of how loaded the machine is); one that sleeps for
+	 * ever by the generous wall-clock limit */
+	struct itimerval it = { { 0, 0 }, { cpu_s, 0 } };
+	setitimer(ITIMER_PROF, &it, NULL);
+	alarm(wall_s);
+}
+
 int main(void)
 {
 	static char line[1 << 16];
 
 	tree.compare = cmp;
 	tree.root = NULL;
-	alarm(60);	/* watchdog: a library call that does not return ends the run with SIGALRM */
+	verif_watchdog(120, 300);
 	while (fgets(line, sizeof(line), stdin) != NULL) {
 		char *op = strtok(line, " \n");
 		if (op == NULL) continue;
